@@ -83,7 +83,7 @@ func genC15(t *rapid.T) c15Case {
 	c.Workers = rapid.IntRange(2, 8).Draw(t, "workers")
 	c.OtherFS = rapid.IntRange(0, 3).Draw(t, "otherfs") == 0
 	c.Ambient = genAmbient(t)
-	c.RelCache = rapid.IntRange(0, 3).Draw(t, "relcache") == 0
+	c.RelCache = rapid.IntRange(0, 2).Draw(t, "relcache") == 0
 	// which protocols run is a valid configuration choice: a collector for one or two protocols must stop as cleanly
 	c.Disabled = rapid.SampledFrom([][]string{nil, nil, nil, {"ipfix"}, {"nf9"}, {"ipfix", "nf5"}, {"nf9", "sflow"}, {"sflow", "nf5"}, {"ipfix", "sflow", "nf5"}, {"nf9", "sflow", "nf5"}, {"nf5"}}).Draw(t, "disabled")
 	tplProtos := []string{}
